@@ -242,15 +242,26 @@ def classify(case):
     want = ref_run(nodes, {"x": x, "t": 0.0, "l": 0.0, "c": 0.0}, {})
     f = build(nodes, cfg == "seed")
     jx = jnp.asarray(np.float32(x))
+    # the same transformed function object is called a second time with another value: the dictionary returned by the first
+    # call is read only afterwards (a collector shared between calls would show the later values in it)
+    x2 = float(np.float32(x + 1.25))
+    jx2 = jnp.asarray(np.float32(x2))
+    want2 = ref_run(nodes, {"x": x2, "t": 0.0, "l": 0.0, "c": 0.0}, {})
     try:
         if cfg == "eager":
-            res, got = impl(state(f), jx)
+            sf = state(f)
+            res, got = impl(sf, jx)
+            res2, got2 = impl(sf, jx2)
             plain = impl(f, jx)
         elif cfg == "jit":
-            res, got = impl(jax.jit(state(f)), jx)
+            sf = jax.jit(state(f))
+            res, got = impl(sf, jx)
+            res2, got2 = impl(sf, jx2)
             plain = impl(jax.jit(f), jx)
         else:
-            res, got = impl(seed(state(f)), env.key(case["key"]), jx)
+            sf = seed(state(f))
+            res, got = impl(sf, env.key(case["key"]), jx)
+            res2, got2 = impl(sf, env.key(case["key"]), jx2)
             plain = impl(seed(f), env.key(case["key"]), jx)
     except ImplError as e:
         return [(f"raises[{cfg}]:{e.sig()}{K}", f"{e}")], {"chains": ch}
@@ -259,6 +270,10 @@ def classify(case):
     got = jax.tree_util.tree_map(np.asarray, got)
     for kind, msg in compare(got, want)[:3]:
         fails.append((f"collected_{kind}[{cfg}]{K}", msg + f"; collected structure {structure(got)}, expected {structure(want)}"))
+    if not fails:
+        got2 = jax.tree_util.tree_map(np.asarray, got2)
+        for kind, msg in compare(got2, want2)[:2]:
+            fails.append((f"second_call_collected_{kind}[{cfg}]{K}", f"second call of the same state(f) with x={x2}: " + msg))
     return fails, {"chains": ch}
 
 
